@@ -1,9 +1,12 @@
 /- C08 — property theorems (only). Helper lemmas: Proofs/C08Handler.lean, Proofs/C08Writer.lean -/
 import XsdataModel.Proofs.C08Handler
 import XsdataModel.Proofs.C08Writer
+import XsdataModel.Proofs.C08Sources
+import XsdataModel.Proofs.C11Pipeline
+import XsdataModel.Backends.Serializers
 
 namespace Props.C08
-open Py Xs.Bind Xs.Backends
+open Py Xs.Bind Xs.Backends Xs.Generic Proofs.C11
 
 /-! ## handlers: the prefix map the native handler passes to `parser.start` -/
 
@@ -50,16 +53,67 @@ theorem inScope_inherits (d : List (Str × Str)) (frames : List (List (Str × St
 
 example : declLast [("q".toList, "urn:1".toList)] (some "p".toList) = none := by decide
 
-/-- **source_kind_irrelevant**: bytes, str, path and file object differ only in what the
-tokeniser is handed; two sources with the same event stream give the same parser calls
-(by construction of `XmlEventHandler.parse`: the source is used in `etree.iterparse(source, EVENTS)` only). -/
-theorem source_kind_irrelevant (tokenise : Source → List Tok) (s₁ s₂ : Source)
-    (h : tokenise s₁ = tokenise s₂) :
-    nativeParseSource tokenise s₁ = nativeParseSource tokenise s₂ := by
-  unfold nativeParseSource; rw [h]
+/-! ## handlers: the kinds of source -/
 
-example : ∃ (tokenise : Source → List Tok), tokenise (.bytes [60, 114, 47, 62]) = tokenise (.str "<r/>".toList) :=
-  ⟨fun _ => [.start "r".toList [] .passed, .end "r".toList none none], rfl⟩
+/-- **source_kind_irrelevant**: `from_string`, `from_bytes`, `from_path` and `parse(file object)` reach
+`process_context` with the same event sequence whenever they stand for the same bytes — the
+tokeniser's output for those bytes (`str` through `encode`, a path through the file system). -/
+theorem source_kind_irrelevant (W : World) (wk : List (Str × Str)) (s₁ s₂ : Src) (b : Bytes)
+    (h₁ : s₁.content W = some b) (h₂ : s₂.content W = some b) :
+    reaches W wk s₁ = some (W.tokenise b) ∧ reaches W wk s₂ = reaches W wk s₁ ∧
+      nativeParse W wk s₂ = nativeParse W wk s₁ := by
+  have e₁ := reaches_of_content W wk s₁ b h₁
+  have e₂ := reaches_of_content W wk s₂ b h₂
+  exact ⟨e₁, by rw [e₁, e₂], by unfold nativeParse; rw [e₁, e₂]⟩
+
+/-- a world for the examples: ASCII `encode`, one file, a tokeniser that knows the document `<r/>` -/
+def exWorld : World where
+  encode := fun s => s.map (fun c => c.toNat.toUInt8)
+  fs := fun p => if p = "/tmp/r.xml".toList then some [60, 114, 47, 62] else none
+  tokenise := fun b => if b = [60, 114, 47, 62] then [.start "r".toList [] .passed, .end "r".toList none none] else []
+
+/-- not vacuous: the four byte-level kinds for `<r/>` have the same content … -/
+example : (Src.str "<r/>".toList).content exWorld = some [60, 114, 47, 62]
+    ∧ (Src.bytes [60, 114, 47, 62]).content exWorld = some [60, 114, 47, 62]
+    ∧ (Src.path "/tmp/r.xml".toList).content exWorld = some [60, 114, 47, 62]
+    ∧ (Src.file [60, 114, 47, 62]).content exWorld = some [60, 114, 47, 62] := by decide
+
+/-- … and the events do depend on the bytes (another document, a file that cannot be opened) -/
+example : (reaches exWorld [] (.str "<r/>".toList)).map List.length = some 2
+    ∧ (reaches exWorld [] (.str "<q/>".toList)).map List.length = some 0
+    ∧ (reaches exWorld [] (.path "/nowhere".toList)).map List.length = none := by decide
+
+/-- **source_tree_element_same**: an ElementTree tree and its root element are the same source
+(`source.getroot()`) -/
+theorem source_tree_element_same (W : World) (wk : List (Str × Str)) (t : XTree) :
+    reaches W wk (.etTree t) = reaches W wk (.etElement t) := rfl
+
+/-- **source_tree_same_core**: an ElementTree source and a byte-level source of the same document make
+the same parser calls *prefixes aside* (element names, attributes, text, tails, in the same order):
+if the tokeniser reports the events of document `d` for the bytes `b`, parsing the tree of `d` differs
+from parsing `b` in the `register_namespace` calls and the prefix maps only. -/
+theorem source_tree_same_core (W : World) (wk : List (Str × Str)) (d : XTree) (src : Src) (b : Bytes)
+    (hc : src.content W = some b) (htok : W.tokenise b = toks d) :
+    (nativeParse W wk (.etElement d)).map (·.filterMap PEv.core) = some (coreOf d) ∧
+    (nativeParse W wk src).map (·.filterMap PEv.core) = some (coreOf d) := by
+  constructor
+  · simp only [nativeParse, reaches, toHSource, nativeContext, Option.map_some]
+    rw [(iterwalk_eq_toks wk d []).1, pump_core_doc, coreOf_redecl]
+  · simp only [nativeParse, reaches_of_content W wk src b hc, Option.map_some, htok, pump_core_doc]
+
+/-- `<p:r xmlns:p="urn:a"><x>t</x>u</p:r>` -/
+def exDoc : XTree :=
+  .node [("p".toList, "urn:a".toList)] "{urn:a}r".toList [] .passed none
+    [.node [] "x".toList [] .passed (some "t".toList) [] (some "u".toList)] none
+
+/-- not vacuous: same core … -/
+example : coreOf exDoc = [CoreEv.start "{urn:a}r".toList [], CoreEv.start "x".toList [],
+      CoreEv.end "x".toList (some "t".toList) (some "u".toList), CoreEv.end "{urn:a}r".toList none none] := by
+  decide
+
+/-- … different calls: the document says `p` (the tree source invents `ns0`, see the example below
+`iterwalk_invented_declarations`) -/
+example : (pump [] [] (toks exDoc)).head? = some (.registerNs (some "p".toList) "urn:a".toList) := rfl
 
 /-- **iterwalk_invented_declarations** (ElementTree sources): the event stream `iterwalk` makes up
 is the stream of the same tree carrying one invented declaration per namespaced element, so the
@@ -136,37 +190,19 @@ theorem writers_agree_flat (e : Env) (isDt : Str → Bool) (indent : Option Str)
 
 example : indentOn (some []) = none ∧ indentOn none = none := ⟨rfl, rfl⟩
 
-/-- Full-strength statement ("indentation aside"): up to layout (whitespace-only character runs that
-are not the whole content of a leaf element) the indented stream is the un-indented stream. -/
-def IndentLayoutOnly : Prop :=
-  ∀ (e : Env) (m : NsMap) (isDt : Str → Bool) (ind : Str) (evs : List Ev) (plain : List Sax) (calls : List ISax),
-    ind ≠ [] → ind.all e.isSpace = true →
-    eventsSax m isDt evs = .ok plain → eventsSaxIndent m isDt (some ind) evs = .ok calls →
-    layoutNorm e calls = layoutNorm e (plain.map ISax.sax)
-
-/-- `<m>t<a/></m>` : character data followed by a child element -/
+/-- `<m>t<a/></m>` : character data followed by a child element (the former counterexample) -/
 def mixedWitness : List Ev :=
   [.start "m".toList, .data (.prim (.str "t".toList)), .start "a".toList, .end "a".toList, .end "m".toList]
 
-/-- The full-strength statement is false: with mixed content the indentation is appended to the
-character data (`t` becomes `t\n  `). -/
-theorem indent_mixed_counterexample : ¬ IndentLayoutOnly := by
-  intro h
-  have := h Env.ascii [] (fun _ => false) "  ".toList mixedWitness
-    [.open "m".toList [], .chars "t".toList, .open "a".toList [], .close "a".toList, .close "m".toList]
-    [.sax (.open "m".toList []), .sax (.chars "t".toList), .ws "\n".toList, .ws "  ".toList,
-      .sax (.open "a".toList []), .sax (.close "a".toList), .ws "\n".toList, .ws [],
-      .sax (.close "m".toList), .ws "\n".toList]
-    (by decide) (by decide) rfl rfl
-  revert this
-  decide
-
-/-- **indent_ws_only** (partial: no element has both non-whitespace character data and child
-elements — `mixedFree`). For every event list the indented stream equals the un-indented one up
-to layout whitespace. -/
-theorem indent_ws_only_partial (e : Env) (m : NsMap) (isDt : Str → Bool) (ind : Str) (evs : List Ev)
+/-- **indent_ws_only** (full strength since the native writer writes no indentation right after
+character data; it used to append it: `t` became `t\n  `, former finding C08-indent-mixed).
+"Indentation aside": for every event list whose call stream keeps its character data inside
+elements (`charsInside`, true of every document) and every non-empty whitespace `indent`, the
+indented call stream equals the un-indented one up to layout — whitespace-only character runs that
+are not the whole content of a leaf element.  Mixed content included. -/
+theorem indent_ws_only (e : Env) (m : NsMap) (isDt : Str → Bool) (ind : Str) (evs : List Ev)
     (plain : List Sax) (hne : ind ≠ []) (hW : ind.all e.isSpace = true)
-    (hp : eventsSax m isDt evs = .ok plain) (hm : mixedFree e plain = true) :
+    (hp : eventsSax m isDt evs = .ok plain) (hd : charsInside plain = true) :
     ∃ calls, eventsSaxIndent m isDt (some ind) evs = .ok calls ∧
       layoutNorm e calls = layoutNorm e (plain.map ISax.sax) := by
   obtain ⟨wf, hwf, hout⟩ := eventsSax_ok m isDt evs plain hp
@@ -175,28 +211,131 @@ theorem indent_ws_only_partial (e : Env) (m : NsMap) (isDt : Str → Bool) (ind 
     cases ind with
     | nil => exact absurd rfl hne
     | cons c cs => rfl
-  have hfin : ((normState e (wf.out.map ISax.sax)).flush e false).bad = false := by
-    rw [hout]; simpa [mixedFree] using hm
-  have hbad := flush_bad_mono e _ _ hfin
+  have hbad : (normState e (wf.out.map ISax.sax)).bad = false := by
+    have := bad_feedAll e plain {}
+    rw [hout]
+    unfold charsInside at hd
+    simpa [normState, feedAll, hd] using this
   obtain ⟨sf, hsf, hw, hinv⟩ := run_inv e m isDt (some ind) ind hi hW evs {} (Inv.init e) wf hwf hbad
   refine ⟨sf.out, by unfold eventsSaxIndent; rw [hsf], ?_⟩
   unfold layoutNorm
   rw [← hout, ← hw]
-  exact hinv.sim.finish (by rw [hw]; exact hfin)
+  exact hinv.sim.finish
+
+/-- **document_chars_inside**: the hypothesis of `indent_ws_only` holds for every call stream that
+denotes a document (an ElementTree builder makes a tree of it). -/
+theorem document_chars_inside (m : NsMap) (plain : List Sax) (t : Tree)
+    (h : saxTree m plain [] none = some t) : charsInside plain = true := by
+  have := saxTree_charsInside m plain [] none t h
+  simpa [charsInside] using this
+
+/-- **indent_ws_only_document**: so, for every event list that the un-indented writer turns into a
+document, the indented output is that document up to layout. -/
+theorem indent_ws_only_document (e : Env) (m : NsMap) (isDt : Str → Bool) (ind : Str) (evs : List Ev)
+    (plain : List Sax) (t : Tree) (hne : ind ≠ []) (hW : ind.all e.isSpace = true)
+    (hp : eventsSax m isDt evs = .ok plain) (ht : saxTree m plain [] none = some t) :
+    ∃ calls, eventsSaxIndent m isDt (some ind) evs = .ok calls ∧
+      layoutNorm e calls = layoutNorm e (plain.map ISax.sax) :=
+  indent_ws_only e m isDt ind evs plain hne hW hp (document_chars_inside m plain t ht)
+
+example : saxTree [] [.open "m".toList [], .chars "t".toList, .open "a".toList [], .close "a".toList,
+    .close "m".toList] [] none
+    = some (.node "m".toList [] [] (some "t".toList) [.node "a".toList [] [] none [] none] none) := rfl
 
 example : "  ".toList ≠ [] ∧ "  ".toList.all Env.ascii.isSpace = true ∧ "\t".toList.all Env.ascii.isSpace = true := by
   decide
 
-/-- non-vacuity: `<r><a>x</a><b> </b></r>` is free of mixed content and is indented -/
-example : mixedFree Env.ascii
-    [.open "r".toList [], .open "a".toList [], .chars "x".toList, .close "a".toList,
-     .open "b".toList [], .chars " ".toList, .close "b".toList, .close "r".toList] = true := by decide
+/-- non-vacuity: mixed content `<m>t<a/>u</m>` keeps its character data inside elements … -/
+example : charsInside
+    [.open "m".toList [], .chars "t".toList, .open "a".toList [], .close "a".toList, .chars "u".toList,
+     .close "m".toList] = true := by decide
+
+/-- … and a stream with character data after the root element does not -/
+example : charsInside [.open "m".toList [], .close "m".toList, .chars "x".toList] = false := by decide
+
+/-- the former counterexample: no layout after `t`, the document is `<m>t<a/>\n</m>\n` — what lxml's
+`indent` makes of it -/
+example : eventsSaxIndent [] (fun _ => false) (some "  ".toList) mixedWitness
+    = .ok [.sax (.open "m".toList []), .sax (.chars "t".toList), .sax (.open "a".toList []),
+           .sax (.close "a".toList), .ws "\n".toList, .ws [], .sax (.close "m".toList), .ws "\n".toList] := rfl
 
 example : eventsSaxIndent [] (fun _ => false) (some "  ".toList)
     [.start "r".toList, .start "a".toList, .data (.prim (.str "x".toList)), .end "a".toList, .end "r".toList]
     = .ok [.sax (.open "r".toList []), .ws "\n".toList, .ws "  ".toList, .sax (.open "a".toList []),
            .sax (.chars "x".toList), .sax (.close "a".toList), .ws "\n".toList, .ws [],
            .sax (.close "r".toList), .ws "\n".toList] := rfl
+
+/-! ## writers: nested elements, and the serializer entry points -/
+
+/-- **writers_agree_nested**: for every tree of nested generic elements (any depth, attributes,
+text, tails) that the writer accepts, the events of the tree make the native writer (read back) and
+the lxml writer / tree serializer produce the *same* tree — the normal form of the tree itself.
+Induction over the event tree (`write_tree`, `sax_tree`). -/
+theorem writers_agree_nested (e : Env) (isDt : Str → Bool) (nil : Bool) (t : Tree) (indent : Option Str)
+    (hok : treeOK isDt t = true) (htl : rootTailBlank e t = true) (hi : indentOn indent = none) :
+    nativeTree isDt indent (treeEv e nil t) = .ok (normTree e [] t) ∧
+    lxmlTree e isDt indent (treeEv e nil t) = .ok (normTree e [] t) := by
+  have hu : collectUris (treeEv e nil t) = [] := by
+    rw [collectUris_eq, treeEv_uris]; rfl
+  have hl : lxmlTree e isDt indent (treeEv e nil t) = .ok (normTree e [] t) := by
+    cases t with
+    | node q a n tx c tl =>
+      have htl' : normalizeContent e tl = none := by simpa [rootTailBlank] using htl
+      have h3 := eventsTree_of isDt _ _ _ hu
+        (eventsSax_single e [] isDt nil _ hok) (treeSax_tree e [] q a n tx c tl htl')
+      simp [lxmlTree, h3, hi]
+  exact ⟨by rw [writers_agree_flat e isDt indent _ hi]; exact hl, hl⟩
+
+/-- `<r k="v">a<x><y/>tl</x><z>t</z></r>` -/
+def exNested : Tree :=
+  .node "r".toList [("k".toList, "v".toList)] [] (some "a".toList)
+    [.node "x".toList [] [] none [.node "y".toList [] [] none [] (some "tl".toList)] none,
+     .node "z".toList [] [] (some "t".toList) [] none] none
+
+example : treeOK (fun _ => false) exNested = true ∧ rootTailBlank Env.ascii exNested = true := by decide
+
+/-- **tree_serializer_same_events**: `TreeSerializer.render` hands its tree builder exactly what
+`XmlSerializer.write` hands its writer — the same events (`EventGenerator.generate`), the same cleaned
+prefix map, the same configuration … -/
+theorem tree_serializer_same_events (e : BEnv) (Γ : Ctx) (scfg : SerCfg) (cfg : WCfg)
+    (userMap : List (Xs.Ns.Pfx × Str)) (v : Val) :
+    treeSerializerInput e Γ scfg cfg userMap v = xmlSerializerInput e Γ scfg cfg userMap v := rfl
+
+/-- … and therefore **builds the tree the lxml event writer prints** (with or without indentation),
+for every object. -/
+theorem tree_serializer_builds_written_tree (e : BEnv) (Γ : Ctx) (isDt : Str → Bool) (scfg : SerCfg)
+    (cfg : WCfg) (userMap : List (Xs.Ns.Pfx × Str)) (v : Val) :
+    treeSerializerRender e Γ isDt scfg cfg userMap v
+      = (xmlSerializerRenderLxml e Γ isDt scfg cfg userMap v).map (·.2) := by
+  unfold treeSerializerRender xmlSerializerRenderLxml
+  rw [tree_serializer_same_events]
+  cases xmlSerializerInput e Γ scfg cfg userMap v with
+  | error x => rfl
+  | ok inp =>
+    simp only [Except.bind, lxmlTreeBuilderBuild, lxmlEventWriterWrite]
+    cases eventsTree isDt inp.events with
+    | error x => rfl
+    | ok t => cases indentOn inp.cfg.indent <;> rfl
+
+/-- **serializers_agree_flat**: without indentation the text of the native writer denotes the tree
+the tree serializer returns, for every object. -/
+theorem serializers_agree_flat (e : BEnv) (Γ : Ctx) (isDt : Str → Bool) (scfg : SerCfg) (cfg : WCfg)
+    (userMap : List (Xs.Ns.Pfx × Str)) (v : Val) (hi : indentOn cfg.indent = none) :
+    xmlSerializerRenderNative e Γ isDt scfg cfg userMap v = treeSerializerRender e Γ isDt scfg cfg userMap v := by
+  unfold xmlSerializerRenderNative treeSerializerRender
+  rw [tree_serializer_same_events]
+  unfold xmlSerializerInput
+  cases generate e Γ scfg v with
+  | error x => rfl
+  | ok evs =>
+    simp only [Except.bind, lxmlTreeBuilderBuild]
+    rw [writers_agree_flat e.py isDt cfg.indent evs hi]
+    simp only [lxmlTree]
+    cases eventsTree isDt evs with
+    | error x => rfl
+    | ok t => simp [hi]
+
+example : indentOn ({} : WCfg).indent = none := rfl
 
 /-- **lxml_indent_ws_only**: `etree.indent` (as modelled) changes nothing but layout: for every
 tree, whitespace indent string and level, the result equals the input once whitespace-only text
